@@ -250,6 +250,13 @@ class ExtMixin(object):
                 return ListV(sorted(v.items, key=lambda c: c.v), "list")
             if all(isinstance(i, Num) and i.const() is not None for i in v.items):
                 return ListV(sorted(v.items, key=lambda c: c.const()), "list")
+            ck = [_concrete_key(i) for i in v.items]
+            if all(k is not None for k in ck):
+                try:
+                    order = sorted(range(len(ck)), key=lambda j: ck[j])
+                    return ListV([v.items[j] for j in order], "list")
+                except TypeError:
+                    pass
             return SortedV(v.items)
         if isinstance(v, SetAccV):
             return v.as_sorted()
@@ -674,6 +681,17 @@ class ExtMixin(object):
         found = self.subst(self.getattr(ld.valv, name, node), {ld.var: ep.sym("@e")})
         dflt = self.getattr(lk.default, name, node) if lk.default is not None else None
         return Opaque(("lookupattr", self.lookup_fkey(lk), found.key(), dflt.key() if dflt is not None else None))
+
+
+def _concrete_key(v):
+    if isinstance(v, Const) and isinstance(v.v, (str, bool)):
+        return v.v
+    if isinstance(v, Num) and v.const() is not None:
+        return v.const()
+    if isinstance(v, ListV):
+        ks = [_concrete_key(i) for i in v.items]
+        return tuple(ks) if all(k is not None for k in ks) else None
+    return None
 
 
 def _unify(pattern, target, var):
